@@ -53,6 +53,9 @@ def run(ctx: Ctx):
     from .common import generic_lints
 
     generic_lints(ctx)
+    from .common import lazyproperty_call_form
+
+    lazyproperty_call_form(ctx)
 
 
 def write_inventory(ctx: Ctx):
